@@ -640,9 +640,11 @@ static void vbi_proxyd_forward_data( int dev_idx )
 
          for (req = proxy.p_clnts; req != NULL; req = req->p_next)
          {
+            /* a client which still has frames pending walks onto this one
+            ** (even if an update of the services left it without any) */
             if ( (req->dev_idx == dev_idx) &&
                  (req->state == REQ_STATE_FORWARD) &&
-                 (req->all_services != 0) )
+                 ((req->all_services != 0) || (req->p_sliced != NULL)) )
             {
                p_buf->ref_count += 1;
 
